@@ -132,6 +132,26 @@ def run(prog, group, own, env=None, labels=None, max_steps=MAX_STEPS):
                 if i >= len(group):
                     raise Panic("gtxns index beyond group")
                 stack.append(txn_field(group, i, ins[1]))
+            elif op == "gtxna":
+                if ins[1] >= len(group):
+                    raise Panic("gtxna index beyond group")
+                stack.append(B("arr:%s" % ins[2]))
+            elif op == "gtxnsa":
+                i = pop_int()
+                if i >= len(group):
+                    raise Panic("gtxnsa index beyond group")
+                stack.append(B("arr:%s" % ins[1]))
+            elif op == "gtxnas":
+                pop_int()
+                if ins[1] >= len(group):
+                    raise Panic("gtxnas index beyond group")
+                stack.append(B("arr:%s" % ins[2]))
+            elif op == "gtxnsas":
+                pop_int()
+                i = pop_int()
+                if i >= len(group):
+                    raise Panic("gtxnsas index beyond group")
+                stack.append(B("arr:%s" % ins[1]))
             elif op == "global":
                 stack.append(global_field(group, env, ins[1]))
             elif op in ("==", "!="):
